@@ -6,6 +6,18 @@ VERIF = os.path.dirname(HERE)
 ALL = ["C%02d" % i for i in range(1, 19)]
 
 CLAIMS = {
+    "C15": dict(
+        text=("Rocq proof about the text-level model of expand_saved_queries: expansion terminates on every acyclic set "
+              "of saved queries (rank argument, fuel = number of queries), a successful expansion implies every referenced "
+              "saved query exists (a missing one is an error, never ignored), a brace-free query is unchanged, and a saved "
+              "clause with alternatives is spliced in parentheses (after the fix in /repo). The semantic clause - the "
+              "referencing query selects exactly surrounding AND saved - is decided on the implementation by executing the "
+              "referencing query and the explicit parenthesised conjunction on an index and comparing the note sets."),
+        note=("Partial: the conjunction clause is checked by differential execution, not proved (it needs the query "
+              "compiler and WHERE models of C04/C03). Known finding: '|'-free clauses are spliced without parentheses, so "
+              "note-type/priority atoms pool with the surrounding group."),
+        technique="Rocq proof (termination by rank, error propagation, text-level lemmas) + differential execution for the semantic clause",
+        design="§5 C15"),
     "C16": dict(
         text=("Rocq proof over the model of init_from_template with regex matching and jinja2 rendering as Section "
               "variables (oracles): an existing file is left identical unless overwrite is requested, nothing is written "
